@@ -190,6 +190,9 @@ pub struct MigScen {
     pub b: Basic,
     acts: Vec<(Ns, Act)>,
     pending: std::rc::Rc<std::cell::Cell<u32>>,
+    /// the attacker may act as soon as the server has completed the handshake (the client may
+    /// still be retransmitting Handshake packets then)
+    early: bool,
 }
 
 impl Scenario for MigScen {
@@ -216,7 +219,11 @@ impl Scenario for MigScen {
                     // racing the handshake from on-path is a denial of service QUIC does not
                     // claim to prevent: the attacker acts on established connections
                     let confirmed = self.b.client_incs.first().is_some_and(|i| self.b.wl.sides.get(i).is_some_and(|s| s.confirmed));
-                    if !confirmed {
+                    let server_done = self.b.client_incs.first().is_some_and(|i| {
+                        let p = w.conns[*i as usize].peer;
+                        p != NO_INC && self.b.wl.sides.get(&p).is_some_and(|s| s.connected)
+                    });
+                    if !(confirmed || (self.early && server_done)) {
                         return;
                     }
                     // the next datagram in flight in that direction
@@ -258,7 +265,11 @@ impl Scenario for MigScen {
     }
 }
 
-fn run(ch: Chooser, ctx: &RunCtx, mut opts: BasicOpts, n_acts: u32) -> RunOut {
+fn run(ch: Chooser, ctx: &RunCtx, opts: BasicOpts, n_acts: u32) -> RunOut {
+    run2(ch, ctx, opts, n_acts, false)
+}
+
+fn run2(ch: Chooser, ctx: &RunCtx, mut opts: BasicOpts, n_acts: u32, early: bool) -> RunOut {
     let mut w = World::from_ctx(ch, ctx);
     w.drv.track_probe = true;
     opts.allow_corrupt = false;
@@ -277,7 +288,7 @@ fn run(ch: Chooser, ctx: &RunCtx, mut opts: BasicOpts, n_acts: u32) -> RunOut {
     let n = if n_acts == 0 { 0 } else { w.ch.range("c15.n_acts", 0, n_acts as u64) };
     let horizon = b.fault_end / MS + 2500;
     for _ in 0..n {
-        let at = w.ch.range("c15.act_ms", 1, horizon) * MS + w.ch.range("c15.act_us", 0, 999) * 1000;
+        let at = if early { w.ch.range("c15.act_early_us", 0, (8 * w.net.base_delay + 100 * MS) / 1000) * 1000 } else { w.ch.range("c15.act_ms", 1, horizon) * MS + w.ch.range("c15.act_us", 0, 999) * 1000 };
         let to_server = !w.ch.chance("c15.to_client", 1, 3);
         let src_node = 150 + w.ch.choose("c15.src", 3);
         let a = if w.ch.chance("c15.replay", 1, 3) { Act::Replay { to_server, src_node } } else { Act::Forward { to_server, src_node, cut_ms: if w.ch.chance("c15.cut", 1, 2) { w.ch.range_log("c15.cut_ms", 1, 20_000) } else { 0 } } };
@@ -289,7 +300,7 @@ fn run(ch: Chooser, ctx: &RunCtx, mut opts: BasicOpts, n_acts: u32) -> RunOut {
     let mig = b.opts.server_migration;
     let irtt = b.server_knobs.initial_rtt_ms * MS;
     let or = MigOracle::new(mig, irtt);
-    let mut sc = MigScen { b, acts, pending: or.pending.clone() };
+    let mut sc = MigScen { b, acts, pending: or.pending.clone(), early };
     sc.b.oracles.push(Box::new(or));
     // "limits what it sends there until validation succeeds": the per-address byte ledger of C07
     sc.b.oracles.push(Box::new(super::c07::AmpOracle::new(20 * MS)));
@@ -309,6 +320,16 @@ fn fam_hijack(ch: Chooser, ctx: &RunCtx) -> RunOut {
 fn fam_rotation(ch: Chooser, ctx: &RunCtx) -> RunOut {
     run(ch, ctx, BasicOpts { op_kinds: vec![7, 7, 1], ops_max: 5, streams_max: 3, size_max: 100_000, cid_lifetime_ms: Some(300), ..Default::default() }, 6)
 }
+/// the client uploads and the server has nothing of its own to send: on an unvalidated path
+/// its packets are acknowledgements that carry the PATH_CHALLENGE
+fn fam_upload(ch: Chooser, ctx: &RunCtx) -> RunOut {
+    run(ch, ctx, BasicOpts { op_kinds: vec![7, 7, 7, 1], ops_max: 6, streams_max: 3, size_max: 300_000, server_plans: false, max_drop: 400, harness_cc_rate: 200, ..Default::default() }, 4)
+}
+/// the attacker forwards packets right after the server completed the handshake, while the
+/// client may still be retransmitting its Handshake flight (lossy handshakes)
+fn fam_early_hijack(ch: Chooser, ctx: &RunCtx) -> RunOut {
+    run2(ch, ctx, BasicOpts { op_kinds: vec![1], ops_max: 1, streams_max: 3, size_max: 60_000, directed_k: 12, directed_max: 3, max_drop: 300, ..Default::default() }, 6, true)
+}
 fn fam_lossy(ch: Chooser, ctx: &RunCtx) -> RunOut {
     run(ch, ctx, BasicOpts { op_kinds: vec![7, 7, 6, 1], ops_max: 5, streams_max: 3, size_max: 60_000, max_drop: 400, ..Default::default() }, 4)
 }
@@ -321,6 +342,8 @@ pub fn spec() -> PropSpec {
             Family { name: "hijack", f: fam_hijack, weight: 30 },
             Family { name: "cid-rotation", f: fam_rotation, weight: 20 },
             Family { name: "lossy", f: fam_lossy, weight: 20 },
+            Family { name: "upload", f: fam_upload, weight: 15 },
+            Family { name: "early-hijack", f: fam_early_hijack, weight: 15 },
         ],
         quick_worlds: 90_000,
         thorough_worlds: 1_350_000,
